@@ -561,3 +561,38 @@ def canon_expr(e):
     if isinstance(e, str):
         return ("#", str(to_frac(e))) if is_num(e) else e
     return tuple(canon_expr(x) for x in e)
+
+
+# ---- defect emulation for the open known finding KF-REPEATED-ARGS ---------------------------------
+def collapse_args(args):
+    """the library's name-keyed signature: distinct objects in first-occurrence order"""
+    out = []
+    for a in args:
+        if a not in out:
+            out.append(a)
+    return out
+
+
+def repeats_first(args):
+    """how a stored fluent is printed back: every repeated object (count > 1) `count` times, in first-
+    occurrence order, followed by the non-repeated objects in order"""
+    from collections import Counter
+    c = Counter(args)
+    out = []
+    for a in collapse_args(args):
+        if c[a] > 1:
+            out += [a] * c[a]
+    out += [a for a in collapse_args(args) if c[a] == 1]
+    return out
+
+
+def emulate_fluent_store(ordered_items):
+    """ordered_items: [(key tuple, value)] in text order -> {printed key: value} as the library stores them"""
+    store = {}
+    for k, v in ordered_items:
+        store[(k[0],) + tuple(collapse_args(k[1:]))] = ((k[0],) + tuple(repeats_first(k[1:])), v)
+    return {pk: v for pk, v in store.values()}
+
+
+def has_repeat(k):
+    return len(set(k[1:])) < len(k[1:])
